@@ -465,6 +465,11 @@ def run(ck):
             r, q, shift = a.get("reference"), a.get("query"), a.get("queryShift")
             if r is None or q is None or shift is None:
                 raise AnalysisError(f"{we}: AlignedPair arguments not bound")
+            if q[0] == "elem" and q[1] == V(pQ) and not (r[0] == "elem" and r[1] == V(pR)):
+                # the nesting the other way round - every query label in the outer loop, its reference labels cut out of the window
+                # (by bisection, say): the same candidates in another order; none of the rules below is written for that shape
+                raise AnalysisError(f"{we}: the candidate scan runs over the query labels and selects reference labels for each "
+                                    f"(transposed nesting): not analysed")
             adj = T.p_sub(T.mk_attr(r, "position"), V(pS))
             want_shift = T.p_sub(T.mk_attr(q, "position"), adj)
             ck.judge(shift == want_shift, "C12.2", short(cand_fn) + ":offset", we,
